@@ -40,7 +40,8 @@ def program(spec: EnumSpec, pname, tier, cap):
     src = render_enum(spec) + "\n"
     names = [canonical(spec, v) for v in spec.variants]
     helper = variant_index_fn(spec) + "\n" + payload_ok_fn(spec) + "\n" + oracle_fn(spec) + "\n" + check_parse_fn(spec) + "\n" + \
-        make_fn(spec, None, "make") + "\n" + bytes_table_fn("canon_decl", names) + "\n"
+        make_fn(spec, None, "make") + "\n" + bytes_table_fn("canon_decl", names) + "\n" + \
+        bytes_table_fn("spell_decl", [spellings(spec, v)[0] for v in spec.variants]) + "\n"
     body, ncov = from_str_harness(spec, N, utf8=True, check_try_from=False)
     # cover: the un-cased identifier of a re-cased variant is an input and is rejected
     for v in spec.variants:
@@ -71,7 +72,7 @@ def program(spec: EnumSpec, pname, tier, cap):
     assert!(beq(st.as_bytes(), name), "IntoStaticStr does not return the re-cased identifier");
     assert!(beq(<%(E)s as VariantNames>::VARIANTS[k as usize].as_bytes(), name), "VARIANTS does not hold the re-cased identifier");
     let sers = v.get_serializations();
-    assert!(sers.len() == 1 && beq(sers[0].as_bytes(), name), "get_serializations does not hold the re-cased identifier");
+    assert!(sers.len() == 1 && beq(sers[0].as_bytes(), spell_decl(k as usize)), "get_serializations does not hold the re-cased identifier (without prefix)");
 """ % {"nv": nv, "E": E}
     hs.append(Harness(name="h_style_names", body=body, unwind=36, kind="symbolic",
                       desc="Display, AsRefStr, IntoStaticStr, VARIANTS[k], get_serializations() all equal the %s form, for every variant" % spec.serialize_all,
@@ -94,6 +95,11 @@ def build(tier, seed):
         for j, d in enumerate(dicts):
             nm = "S" + "".join(ch for ch in st.title() if ch.isalnum()) + "D%d" % j
             specs.append(mk_spec(st, d, nm))
+    for st in (["kebab-case", "SCREAMING_SNAKE_CASE", "camelCase", "lowercase"] if tier == "quick" else casing.DOCUMENTED_STYLES):
+        sp = mk_spec(st, DICT_C, "P" + "".join(ch for ch in st.title() if ch.isalnum()))
+        sp.prefix = "px/"
+        sp.note += " + prefix (printing derives prepend it to the RENAMED identifier)"
+        specs.append(sp)
     cap = 12 if tier == "quick" else 16
     programs = [program(s, "p%03d" % i, tier, cap) for i, s in enumerate(specs)]
     return {
